@@ -102,7 +102,8 @@ func clip(b []byte) string {
 	return hx(b)
 }
 
-// panicSite names the innermost neo-go frames of a recovered panic.
+// panicSite names the innermost neo-go frame of a recovered panic, followed by
+// its caller if that is in another package (one key per faulty call site).
 func panicSite(st string) string {
 	var fr []string
 	for _, l := range strings.Split(st, "\n") {
@@ -116,10 +117,15 @@ func panicSite(st string) string {
 		if i := strings.LastIndex(l, "/"); i >= 0 {
 			l = l[i+1:]
 		}
-		fr = append(fr, l)
-		if len(fr) == 2 {
+		pkgOf := func(s string) string { return s[:strings.Index(s+".", ".")] }
+		if len(fr) == 1 {
+			if pkgOf(l) == pkgOf(fr[0]) {
+				break
+			}
+			fr = append(fr, l)
 			break
 		}
+		fr = append(fr, l)
 	}
 	return strings.Join(fr, "<-")
 }
@@ -301,6 +307,10 @@ func (c *codec) evalInput(ic *inputCase) (string, bool, []finding) {
 		}
 		key := fmt.Sprintf("%s:%s", oracle, c.name)
 		switch {
+		case oracle == "allocation-over-ceiling":
+			key = fmt.Sprintf("%s:%s", oracle, c.groupName())
+		case oracle == "re-decoded-value-differs" && ownerOf(detail) != "":
+			key = fmt.Sprintf("%s:%s", oracle, ownerOf(detail))
 		case oracle == "panic":
 			key = "panic:" + detail[1:strings.Index(detail, "]")]
 			detail = "decoder " + c.name + ": " + detail
@@ -981,6 +991,9 @@ func runShard(r *vk.Run, j job, deadline time.Time) shardOutcome {
 			tail = tail[i:]
 		}
 		key := fmt.Sprintf("%s:%s", oracle, j.Codec)
+		if c != nil {
+			key = fmt.Sprintf("%s:%s", oracle, c.groupName())
+		}
 		detail := fmt.Sprintf("worker exit: %v; ", werr)
 		if hung {
 			detail += fmt.Sprintf("no progress on this input for more than %.0f CPU seconds; ", hangCPUSeconds)
